@@ -302,8 +302,22 @@ def tagToTextXml (tagNames : Table) (t : Nat) : List Nat :=
   | some n => if n == emptyName then hex0x 6 t else unpack n
   | none => hex0x 6 t
 
-/-- xmlReader.Tag / jsonReader.Tag on the raw tag text: 0 when empty, malformed or unknown. -/
+/-- xmlReader.Tag / jsonReader.Tag on the raw tag text: 0 when empty, malformed or unknown. The `0x` form
+    is `ParseUint(·, 16, 24)` and zero is "no tag" (since /repo a1c0e70): a tag is a non-zero 3-byte
+    number. (`parsedTag == 0 ⇒ return 0` and the value itself coincide.) -/
 def tagFromText (tagByName : Table) (s : List Nat) : Int :=
+  match s with
+  | [] => 0
+  | 48 :: 120 :: rest => match parseUint 16 24 rest with
+    | some n => (n : Int)
+    | none => 0
+  | _ => match lookup (pack s) tagByName with
+    | some t => (t : Int)
+    | none => 0
+
+/-- the readers BEFORE /repo a1c0e70: the `0x` form was `ParseInt(·, 16, 32)`, so a sign and up to 31
+    bits were accepted (kept to state what was wrong with it). -/
+def tagFromTextOld (tagByName : Table) (s : List Nat) : Int :=
   match s with
   | [] => 0
   | 48 :: 120 :: rest => match parseInt 16 32 rest with
